@@ -10,7 +10,8 @@ EXPLANATION = ("C16: lock-region analysis over every body that touches SourceVie
                "the finished test inside the same section; (R4) no call under the lock can re-acquire it; (R5) the state "
                "is monotone (append-only cache, counter only advanced); (R6) line_count forces complete indexing before it reads the cache length, so its answer does not depend on what other threads indexed before. The claim quantifies over all schedules because it "
                "is a statement about the code's locking discipline, not about sampled interleavings."
-               " (R7) the crate's iterators implement `next` only; (R5b) no field of an existing view is overwritten and no get_mut/into_inner back door is used.")
+               " (R7) the crate's iterators implement `next` only; (R5b) no field of an existing view is overwritten and no get_mut/into_inner back door is used."
+               " (R8) the line cache records every piece it cuts, under the lock (cache:every-piece).")
 NOT_DECIDED = "nothing schedule-dependent once R1-R5 hold; std::sync::Mutex is the trusted base. Send/Sync is checked by the type-level witness in the thorough tier."
 TECHNIQUE = "static analysis: mutex guard live-range (lock-region) analysis over MIR + panic-site discharge inside the regions"
 
